@@ -15,7 +15,9 @@ EXTENDS Naturals, Sequences, TLC, Json
 CONSTANTS Alphabet,     \* set of tokens (strings)
           Names,        \* set of invocation names
           MaxTokens,
-          Placements    \* subset of 0..3: how many leading tokens go into the environment
+          Placements    \* subset of 0..3: how many leading tokens go into the environment (the driver splits them
+                        \* over LBZIP2 / BZIP2 / BZIP in every consecutive way, with blanks and tabs before, between and
+                        \* after them, and leaves token-less variables unset, empty or blank: all the same command line)
 
 Init0(name) == [dec |-> name \in {"bunzip2", "lbunzip2", "bzcat", "lbzcat"},
                 om |-> IF name \in {"bzcat", "lbzcat"} THEN "stdout" ELSE "regf",
